@@ -1,14 +1,19 @@
-(* NzcVacuous.v — a finding about the hypotheses of the torn-write theorems.
-   TornProofs.no_zero_collision P quantifies over frame payloads of ANY length.  Together with the
-   32-bit range of the checksum (forall t p, crcf P t p < 2^32) it is contradictory, by the
-   pigeonhole principle: the 2^32 + 1 strings  1^n 0^(2^32 - n)  (n = 0 .. 2^32) are pairwise
-   "zero-completed proper prefixes" of one another, so no_zero_collision makes their checksums
-   pairwise distinct.  Hence every theorem that assumes both (TornProofs.torn_read_nocoll under
-   Hcrc, TornFile.open_torn, CrashAtomic.C02_crash_atomic, ...) holds vacuously as stated.
-   The repair is to bound the payload length in the definition (lenN fp <= BS P - 7: every
-   payload whose checksum the reader verifies fits in a block); this file also shows that the
-   bounded property is satisfiable (nzc_bounded_sat), so that the repaired hypothesis would not be
-   vacuous. *)
+(* NzcVacuous.v — why TornProofs.no_zero_collision / crc_collision bound the payload length.
+   An earlier version of TornProofs.no_zero_collision P quantified over payloads of ANY length:
+       forall ty fp n, n < lenN fp ->
+         crcf P ty (takeN n fp ++ zerosN (lenN fp - n)) = crcf P ty fp ->
+         takeN n fp ++ zerosN (lenN fp - n) = fp.
+   Together with the 32-bit range of the checksum (forall t p, crcf P t p < 2^32) that formula is
+   contradictory, by the pigeonhole principle: the 2^32 + 1 strings  1^n 0^(2^32 - n)
+   (n = 0 .. 2^32) are pairwise "zero-completed proper prefixes" of one another, so the formula
+   makes their checksums pairwise distinct (nzc_inconsistent below, stated about the OLD formula
+   written out in full).  Every theorem assuming both was therefore vacuous.
+   The repair made in TornProofs.v bounds the payload length in both definitions
+   (lenN fp + 7 <= BS P: every payload whose checksum the reader verifies fits in a block after
+   its 7-byte header).  This file also shows that the repaired hypothesis IS satisfiable together
+   with the 32-bit range, for every admissible block size (nzc_bounded_sat), so the theorems that
+   assume it (TornProofs.torn_read_nocoll, TornFile.open_torn, CrashAtomic.C02_crash_atomic, ...)
+   are no longer vacuous on that account. *)
 From Coq Require Import Lia ZArith ZifyN ZifyNat ZifyBool List.
 From MRL Require Import Bytes BytesProofs Params FileStream TornProofs.
 
@@ -104,12 +109,14 @@ Proof.
   rewrite all_zero_onesN in E by lia. discriminate.
 Qed.
 
-Section Vacuous.
-Variable P : params.
-
-(* THE FINDING *)
-Theorem nzc_inconsistent :
-  (forall t p, crcf P t p < 2 ^ 32) -> no_zero_collision P -> False.
+(* THE FINDING: the unbounded formula (the former definition of no_zero_collision P) is
+   inconsistent with a 32-bit checksum.  It is NOT TornProofs.no_zero_collision any more. *)
+Theorem nzc_inconsistent (P : params) :
+  (forall t p, crcf P t p < 2 ^ 32) ->
+  (forall ty fp n, n < lenN fp ->
+     crcf P ty (takeN n fp ++ zerosN (lenN fp - n)) = crcf P ty fp ->
+     takeN n fp ++ zerosN (lenN fp - n) = fp) ->
+  False.
 Proof.
   intros Hcrc Hnc. set (M := 2 ^ 32) in *.
   destruct (pigeonhole M (fun n => crcf P x00 (step_str M n))) as (i & j & Hij & Hj & E).
@@ -122,12 +129,14 @@ Proof.
   - rewrite Hp. exact E.
 Qed.
 
-(* the repaired hypothesis: payloads that fit in a block *)
-Definition no_zero_collision_bounded : Prop :=
-  forall ty fp n, lenN fp + 7 <= BS P -> n < lenN fp ->
-    crcf P ty (takeN n fp ++ zerosN (lenN fp - n)) = crcf P ty fp ->
-    takeN n fp ++ zerosN (lenN fp - n) = fp.
-End Vacuous.
+(* the unbounded formula implies the repaired definition (so the repair only weakens the
+   hypothesis of the torn-write theorems) *)
+Lemma nzc_unbounded_bounded (P : params) :
+  (forall ty fp n, n < lenN fp ->
+     crcf P ty (takeN n fp ++ zerosN (lenN fp - n)) = crcf P ty fp ->
+     takeN n fp ++ zerosN (lenN fp - n) = fp) ->
+  no_zero_collision P.
+Proof. intros H ty fp n _ Hn E. exact (H ty fp n Hn E). Qed.
 
 (* ---------- the bounded property is satisfiable with a 32-bit checksum ---------- *)
 (* 1 + the index of the last non-zero byte (0 for an all-zero string) *)
@@ -174,40 +183,64 @@ Proof.
     destruct (N.eqb_spec (last_nz (r ++ zerosN z)) 0); [destruct (Byte.eqb b x00)|]; lia.
 Qed.
 
-Definition P_sat (bs nb : N) : params :=
-  mkParams bs nb (fun _ p => N.min (last_nz p) (2 ^ 32 - 1)) 0 false false false.
+Definition crc_sat : byte -> bytes -> N := fun _ p => N.min (last_nz p) (2 ^ 32 - 1).
+
+Definition P_sat (bs nb : N) : params := mkParams bs nb crc_sat 24 false false false.
 
 Lemma lenN_app_zeros_take (fp : bytes) n : n <= lenN fp ->
   lenN (takeN n fp ++ zerosN (lenN fp - n)) = lenN fp.
 Proof. intros H. rewrite lenN_app, lenN_takeN, lenN_zerosN. lia. Qed.
 
-Theorem nzc_bounded_sat bs nb :
-  bs <= 65542 ->
-  (forall t p, crcf (P_sat bs nb) t p < 2 ^ 32) /\
-  no_zero_collision_bounded (P_sat bs nb).
+Lemma crc_sat_lt t p : crc_sat t p < 2 ^ 32.
+Proof.
+  assert (Hpos : 0 < 2 ^ 32) by (vm_compute; reflexivity).
+  unfold crc_sat. lia.
+Qed.
+
+Lemma nzc_P_sat bs nb : bs <= 65542 -> no_zero_collision (P_sat bs nb).
 Proof.
   intros Hbs.
   assert (Hpow : 65542 < 2 ^ 32 - 1) by (vm_compute; reflexivity).
-  assert (Hpos : 0 < 2 ^ 32) by (vm_compute; reflexivity).
-  split.
-  - intros t p. cbn [crcf P_sat]. lia.
-  - intros ty fp n Hlen Hn E. cbn [crcf P_sat BS] in *.
-    pose proof (last_nz_le fp) as L1.
-    pose proof (last_nz_le (takeN n fp ++ zerosN (lenN fp - n))) as L2.
-    rewrite lenN_app_zeros_take in L2 by lia.
-    rewrite !N.min_l in E by lia.
-    pose proof (last_nz_app_zeros (takeN n fp) (lenN fp - n)) as H1.
-    rewrite lenN_takeN in H1. rewrite E in H1.
-    (* fp is zero from n on *)
-    pose proof (last_nz_tail fp) as Ht.
-    assert (Hz : all_zero (dropN n fp) = true).
-    { replace n with (last_nz fp + (n - last_nz fp)) by lia.
-      rewrite <- dropN_dropN. set (l := dropN (last_nz fp) fp) in *.
-      rewrite <- (takeN_dropN (n - last_nz fp) l), all_zero_app in Ht.
-      apply andb_true_iff in Ht. tauto. }
-    rewrite <- (takeN_dropN n fp) at 3. f_equal.
-    rewrite (all_zero_is_zeros _ Hz), lenN_dropN. reflexivity.
+  intros ty fp n Hlen Hn E. cbn [crcf P_sat BS] in *. unfold crc_sat in E.
+  pose proof (last_nz_le fp) as L1.
+  pose proof (last_nz_le (takeN n fp ++ zerosN (lenN fp - n))) as L2.
+  rewrite lenN_app_zeros_take in L2 by lia.
+  rewrite !N.min_l in E by lia.
+  pose proof (last_nz_app_zeros (takeN n fp) (lenN fp - n)) as H1.
+  rewrite lenN_takeN in H1. rewrite E in H1.
+  (* fp is zero from n on *)
+  pose proof (last_nz_tail fp) as Ht.
+  assert (Hz : all_zero (dropN n fp) = true).
+  { replace n with (last_nz fp + (n - last_nz fp)) by lia.
+    rewrite <- dropN_dropN. set (l := dropN (last_nz fp) fp) in *.
+    rewrite <- (takeN_dropN (n - last_nz fp) l), all_zero_app in Ht.
+    apply andb_true_iff in Ht. tauto. }
+  rewrite <- (takeN_dropN n fp) at 3. f_equal.
+  rewrite (all_zero_is_zeros _ Hz), lenN_dropN. reflexivity.
+Qed.
+
+(* the repaired hypothesis is satisfiable together with the 32-bit range of the checksum, for
+   every block size allowed by the other standing hypotheses (7 < BS <= 65542) *)
+Theorem nzc_bounded_sat : forall BSv NBv, 7 < BSv -> BSv <= 65542 ->
+  exists crc, (forall t p, crc t p < 2 ^ 32) /\
+              no_zero_collision (mkParams BSv NBv crc 24 false false false).
+Proof.
+  intros BSv NBv _ Hhi. exists crc_sat. split; [exact crc_sat_lt|].
+  exact (nzc_P_sat BSv NBv Hhi).
+Qed.
+
+(* in particular the hypotheses of the torn-write theorems are jointly satisfiable *)
+Corollary torn_hyps_sat : forall BSv NBv, 7 < BSv -> BSv <= 65542 ->
+  exists P, BS P = BSv /\ NB P = NBv /\ 7 < BS P /\ BS P <= 65542 /\
+            (forall t p, crcf P t p < 2 ^ 32) /\ no_zero_collision P /\
+            L_GC P = false /\ L_IO P = false /\ L_SHORT P = false.
+Proof.
+  intros BSv NBv Hlo Hhi. exists (P_sat BSv NBv).
+  repeat split; try assumption; try reflexivity.
+  - intros t p. apply crc_sat_lt.
+  - apply nzc_P_sat. exact Hhi.
 Qed.
 
 Print Assumptions nzc_inconsistent.
 Print Assumptions nzc_bounded_sat.
+Print Assumptions torn_hyps_sat.
